@@ -208,14 +208,41 @@ func vr01Res(f []string) string {
 	r := allocator.InitGlobalRegistry(v4p, v6p)
 	defer allocator.ResetGlobalRegistry()
 	var res []string
+	// contexts persist per session within a case: Y/Z start a fresh one, y/z re-enter with the kept one
+	c4 := map[string]*allocator.Context{}
+	c6 := map[string]*allocator.Context{}
 	for _, op := range f[p+1:] {
 		switch op[0] {
-		case 'Y': // Y<sid>,<pf>,<override>,<vrf>,<addr|->
-			q := strings.Split(op[1:], ",")
-			ctx := &allocator.Context{SessionID: "s" + q[0], ProfileName: "p" + q[1], PoolOverride: vr01Name("n", q[2]), VRF: vr01Name("v", q[3])}
-			if q[4] != "-" {
-				ctx.IPv4Address = vr01IP(q[4])
+		case 'n': // n<sid>: the protocol code drops the IPv4 address from the context, everything else stays
+			if ctx := c4[op[1:]]; ctx != nil {
+				ctx.IPv4Address = nil
+				res = append(res, "ok")
+			} else {
+				res = append(res, "noctx")
 			}
+		case 'm': // m<sid>: same for the IPv6 address and prefix
+			if ctx := c6[op[1:]]; ctx != nil {
+				ctx.IPv6Address, ctx.IPv6Prefix = nil, nil
+				res = append(res, "ok")
+			} else {
+				res = append(res, "noctx")
+			}
+		case 'Y', 'y': // Y<sid>,<pf>,<override>,<vrf>,<addr|->   y<sid>: ResolveV4 again with the kept context
+			var ctx *allocator.Context
+			if op[0] == 'y' {
+				if ctx = c4[op[1:]]; ctx == nil {
+					res = append(res, "noctx")
+					continue
+				}
+			} else {
+				q := strings.Split(op[1:], ",")
+				ctx = &allocator.Context{SessionID: "s" + q[0], ProfileName: "p" + q[1], PoolOverride: vr01Name("n", q[2]), VRF: vr01Name("v", q[3])}
+				if q[4] != "-" {
+					ctx.IPv4Address = vr01IP(q[4])
+				}
+				c4[q[0]] = ctx
+			}
+			q := []string{"", ctx.ProfileName[1:]}
 			prof := v4p["p"+q[1]]
 			if prof == nil {
 				prof = &ip.IPv4Profile{}
@@ -226,17 +253,27 @@ func vr01Res(f []string) string {
 			} else {
 				res = append(res, "r"+vr01ShowIP(got.YourIP)+"@"+vr01Dash(got.PoolName))
 			}
-		case 'Z': // Z<sid>,<pf>,<iana override>,<pd override>,<vrf>,<addr|->,<pfx|->
-			q := strings.Split(op[1:], ",")
-			ctx := &allocator.Context{SessionID: "s" + q[0], IPv6ProfileName: "p" + q[1], IANAPoolOverride: vr01Name("n", q[2]),
-				PDPoolOverride: vr01Name("n", q[3]), VRF: vr01Name("v", q[4])}
-			if q[5] != "-" {
-				ctx.IPv6Address = vr01IP(q[5])
+		case 'Z', 'z': // Z<sid>,<pf>,<iana override>,<pd override>,<vrf>,<addr|->,<pfx|->   z<sid>: again, kept context
+			var ctx *allocator.Context
+			if op[0] == 'z' {
+				if ctx = c6[op[1:]]; ctx == nil {
+					res = append(res, "noctx")
+					continue
+				}
+			} else {
+				q := strings.Split(op[1:], ",")
+				ctx = &allocator.Context{SessionID: "s" + q[0], IPv6ProfileName: "p" + q[1], IANAPoolOverride: vr01Name("n", q[2]),
+					PDPoolOverride: vr01Name("n", q[3]), VRF: vr01Name("v", q[4])}
+				if q[5] != "-" {
+					ctx.IPv6Address = vr01IP(q[5])
+				}
+				if q[6] != "-" {
+					ctx.IPv6Prefix = vr01Pfx(q[6])
+				}
+				c6[q[0]] = ctx
 			}
-			given := q[6] != "-"
-			if given {
-				ctx.IPv6Prefix = vr01Pfx(q[6])
-			}
+			given := ctx.IPv6Prefix != nil
+			q := []string{"", ctx.IPv6ProfileName[1:]}
 			prof := v6p["p"+q[1]]
 			if prof == nil {
 				prof = &ip.IPv6Profile{}
@@ -253,14 +290,15 @@ func vr01Res(f []string) string {
 			if !given && ctx.IPv6Prefix != nil {
 				pd = vr01ShowPfx(ctx.IPv6Prefix)
 			}
+			rna, rpd := "-", "-"
 			if got != nil {
-				// the result must carry what the context carries
-				if (got.IANAAddress == nil) != (ctx.IPv6Address == nil) || (got.PDPrefix == nil) != (ctx.IPv6Prefix == nil) ||
-					vr01Dash(got.IANAPoolName) != vr01Dash(ctx.AllocatedIANAPool) || vr01Dash(got.PDPoolName) != vr01Dash(ctx.AllocatedPDPool) {
+				// the result must carry the address / prefix the context carries
+				if (got.IANAAddress == nil) != (ctx.IPv6Address == nil) || (got.PDPrefix == nil) != (ctx.IPv6Prefix == nil) {
 					s = "INCONSISTENT"
 				}
+				rna, rpd = vr01Dash(got.IANAPoolName), vr01Dash(got.PDPoolName)
 			}
-			res = append(res, fmt.Sprintf("%s;na=%s;napool=%s;pd=%s;pdpool=%s", s, na, vr01Dash(ctx.AllocatedIANAPool), pd, vr01Dash(ctx.AllocatedPDPool)))
+			res = append(res, fmt.Sprintf("%s;na=%s;napool=%s;pd=%s;pdpool=%s;rna=%s;rpd=%s", s, na, vr01Dash(ctx.AllocatedIANAPool), pd, vr01Dash(ctx.AllocatedPDPool), rna, rpd))
 		case 'A':
 			fam := op[1]
 			q := strings.Split(op[2:], ",")
